@@ -807,14 +807,14 @@ package collection
 //@   ensures implies(lruLim[l] > 0, lruHas[l][key] && lruN[l] <= lruLim[l] && forall(s.(string), implies(s != key && lruHas[l][s], old(lruHas[l][s]))))
 //@   ensures implies(lruLim[l] > 0 && old(lruHas[l][key]), lruHas[l] == old(lruHas[l]) && lruN[l] == old(lruN[l]))
 //@   ensures forall(s.(string), inDom(lruOwner[l].data, s) == (old(inDom(lruOwner[l].data, s)) && !(lruLim[l] > 0 && old(lruHas[l][s]) && !lruHas[l][s])))
-//@   ensures forall(s.(string), implies(inDom(lruOwner[l].data, s), lruOwner[l].data[s] == old(lruOwner[l].data[s])))
+//@   ensures valof(lruOwner[l].data) == old(valof(lruOwner[l].data))
 //@   ensures len(lruOwner[l].data) - lruN[l] == old(len(lruOwner[l].data)) - (old(lruN[l]) + ite(lruLim[l] > 0 && !old(lruHas[l][key]), 1, 0))
 //@   modifies lruHas[l], lruN[l], mapof(lruOwner[l].data)
 //@ extern func (l lru) remove
 //@   ensures implies(lruLim[l] <= 0, lruHas[l] == old(lruHas[l]) && lruN[l] == old(lruN[l]))
 //@   ensures implies(lruLim[l] > 0, !lruHas[l][key] && lruN[l] == old(lruN[l]) - ite(old(lruHas[l][key]), 1, 0) && forall(s.(string), implies(s != key, lruHas[l][s] == old(lruHas[l][s]))))
 //@   ensures forall(s.(string), inDom(lruOwner[l].data, s) == (old(inDom(lruOwner[l].data, s)) && !(lruLim[l] > 0 && s == key && old(lruHas[l][key]))))
-//@   ensures forall(s.(string), implies(inDom(lruOwner[l].data, s), lruOwner[l].data[s] == old(lruOwner[l].data[s])))
+//@   ensures valof(lruOwner[l].data) == old(valof(lruOwner[l].data))
 //@   ensures len(lruOwner[l].data) == old(len(lruOwner[l].data)) - ite(lruLim[l] > 0 && old(lruHas[l][key]) && old(inDom(lruOwner[l].data, key)), 1, 0)
 //@   modifies lruHas[l], lruN[l], mapof(lruOwner[l].data)
 
@@ -851,6 +851,7 @@ package collection
 //@   requires c != nil && c.timingWheel != nil
 //@   ensures  !inDom(c.data, key) && forall(s.(string), implies(s != key, inDom(c.data, s) == old(inDom(c.data, s)) && implies(inDom(c.data, s), c.data[s] == old(c.data[s]))))
 //@   ensures  twRemoves == old(twRemoves) + 1
+//@   modifies mapof(c.data), lruHas[c.lruCache], lruN[c.lruCache], twRemoves
 
 //@ func (c *Cache) SetWithExpire
 //@   property C16
@@ -865,12 +866,14 @@ package collection
 //@   ensures  implies(lruLim[c.lruCache] <= 0, forall(s.(string), implies(s != key, inDom(c.data, s) == old(inDom(c.data, s)) && implies(inDom(c.data, s), c.data[s] == old(c.data[s])))))
 //@   ensures  forall(s.(string), implies(s != key && inDom(c.data, s), old(inDom(c.data, s)) && c.data[s] == old(c.data[s])))
 //@   ensures  twSets + twMoves == old(twSets + twMoves) + 1
+//@   modifies mapof(c.data), lruHas[c.lruCache], lruN[c.lruCache], twSets, twMoves
 
 //@ func (c *Cache) Set
 //@   property C16
 //@   float real
 //@   requires c != nil && c.timingWheel != nil && c.expire >= 0 && mathx.UnstableOK(c.unstableExpiry)
 //@   call SetWithExpire#0: assert arg_key == key && arg_value == value && arg_expire == c.expire
+//@   modifies mapof(c.data), lruHas[c.lruCache], lruN[c.lruCache], twSets, twMoves
 
 //@ func (c *Cache) doGet
 //@   property C16
@@ -879,6 +882,7 @@ package collection
 //@   requires c != nil
 //@   ensures  ok == old(inDom(c.data, key)) && implies(ok, value == old(c.data[key]))
 //@   ensures  forall(s.(string), inDom(c.data, s) == old(inDom(c.data, s)) && implies(inDom(c.data, s), c.data[s] == old(c.data[s])))
+//@   modifies mapof(c.data), lruHas[c.lruCache], lruN[c.lruCache]
 
 //@ func (c *Cache) onEvict
 //@   property C16
@@ -887,6 +891,13 @@ package collection
 //@   ensures  !inDom(c.data, key) && forall(s.(string), implies(s != key, inDom(c.data, s) == old(inDom(c.data, s)) && implies(inDom(c.data, s), c.data[s] == old(c.data[s]))))
 //@   ensures  len(c.data) == old(len(c.data)) - ite(old(inDom(c.data, key)), 1, 0)
 //@   modifies mapof(c.data), twRemoves
+
+//@ func (cs *cacheStat) IncrementHit
+//@   property C16
+//@   modifies cs.hit
+//@ func (cs *cacheStat) IncrementMiss
+//@   property C16
+//@   modifies cs.miss
 
 //@ func (c *Cache) size
 //@   property C16
@@ -903,6 +914,7 @@ package collection
 //@   ghost at after doGet#0: gv = ret0
 //@   ghost at after doGet#0: gok = ret1
 //@   ensures  value == gv && ok == gok
+//@   modifies mapof(c.data), lruHas[c.lruCache], lruN[c.lruCache], cacheStat.hit, cacheStat.miss
 
 // WithLimit: a positive limit installs a fresh key lru of that limit whose eviction callback is this cache's onEvict
 //@ func WithLimit closure 0
@@ -925,3 +937,31 @@ package collection
 //@   results c, err
 //@   ensures implies(err == nil, c != nil && c.timingWheel != nil && c.expire == expire)
 //@   allocates
+
+// Take: the loader runs only on a miss — not at all when the first lookup hits, and inside the single-flight barrier only
+// when the second lookup (under the barrier) misses too; a loaded value is stored under the key before it is returned, a
+// loader error is returned and nothing is stored.
+//@ func (c *Cache) Take
+//@   property C16
+//@   float real
+//@   flag callbacks_noheap
+//@   results val, err
+//@   requires c != nil && fetch != nil
+//@   ghost at after doGet#0: hit1 = ret1
+//@   ghost at after doGet#0: v1 = ret0
+//@   ensures implies(hit1, calls(fetch) == old(calls(fetch)) && err == nil && val == v1)
+//@ func (c *Cache) Take closure 0
+//@   property C16
+//@   float real
+//@   flag callbacks_noheap
+//@   results v, err
+//@   requires c != nil && c.timingWheel != nil && c.expire >= 0 && mathx.UnstableOK(c.unstableExpiry) && fetch != nil
+//@   ghost at entry: stored = false
+//@   ghost at after doGet#0: hit2 = ret1
+//@   ghost at after doGet#0: v2 = ret0
+//@   ghost at after Set#0: stored = true
+//@   call Set#0: assert arg_key == key && arg_value == ret(fetch, 0) && ret(fetch, 1) == nil
+//@   ensures calls(fetch) == old(calls(fetch)) + ite(hit2, 0, 1)
+//@   ensures implies(hit2, v == v2 && err == nil && !stored)
+//@   ensures implies(!hit2 && ret(fetch, 1) != nil, err == ret(fetch, 1) && v == nil && !stored)
+//@   ensures implies(!hit2 && ret(fetch, 1) == nil, err == nil && v == ret(fetch, 0) && stored)
